@@ -33,6 +33,8 @@ APPENDIX = [
     "{{ a[1", "{{ a['x'", "{{ a['x' }}", "{{ a. }}", "{{ a.1 }}", "{{ a.-1 }}", "{{ a.1.b }}", "{{ [a] }}",
     "{{ [a][b] }}", "{{ ['a'] }}", "{{ [1] }}", "{{ [ }}", "{{ a[b[c]] }}", "{{ a[-1] }}", "{{ a['it\\'s'] }}",
     "{{ a[\"it\\'s\"] }}", "{{ a['\\q'] }}", "{{ a.b..c }}", "{{ a..", "{{ a.", "{{ \u00e9.\u00fc }}", "{{ a.\U0001F600 }}",
+    "{{ ['some thing'].0 }}", "{% for x in [\"a\"].0 %}", "{{ a['b'].0.1 }}", "{{ ['a'].0.b | f: ['c'].1, k: [d].0 }}", "{{ \"${ ['a'].0 }\" }}",
+    "{{ ['a'] .0 }}", "{{ ['a'].0}}", "{{ ['a'].-1 }}", "{{ ['a'].0[1].2 }}", "{{ [a].0 }}", "{{ ['a'].0",
     "{{ x y }}", "{{ x | f: a, b: 1 }}", "{{ x || y }}", "{{ a => b }}", "{{ a <> b }}", "{{ ! ? }}", "{{ a }",
     "{{ a %}", "{% a }}", "{% a }", "{% a %", "{% if a >= b and c <> d or not e contains 'x' %}", "{% if",
     "{%if%}", "{% ifX %}", "{% if\u00e9 %}", "{% 1 %}", "{% %}", "{%%}", "{% If %}",
